@@ -17,6 +17,21 @@ NEUTRAL_PREFIXES = ("register_",)
 BIND_TRAFFIC = ("BindRequest", "BindResponse", "UnbindRequest")
 
 
+def outstanding_before(p, eff):
+    """Emptiness of the outstanding set as established before the path recorded its own id:
+    the snapshot at the first add to the set if that comes before `eff`, else the snapshot at `eff`."""
+    idx = p.effects.index(eff)
+    adds = [e for e in p.effects[:idx] if e.kind == "set_add" and e.a == OUT]
+    if adds:
+        return adds[0].snap_empty.get(OUT)
+    return eff.snap_empty.get(OUT)
+
+
+def observable(p):
+    """Effects a caller can observe on a session: state, outgoing bytes, accepted input."""
+    return [e for e in p.effects if e.kind in ("state", "extend") or (e.kind in ("attr_assign", "attr_call") and str(e.a) in ("_outgoing_buffer", "_incoming_buffer", "state"))]
+
+
 def incoming_notice(p) -> bool | None:
     if not p.msg_in or not p.msg_in.endswith(".ExtendedResponse"):
         return False
@@ -68,7 +83,7 @@ def check(model: Model, run: Run) -> None:
                                          "a non-protocol entry changes state or emits bytes on a CLOSED session",
                                          model.loc(SESSION_MOD, model.find_method(q, p.entry).node), p.trace()))
                 else:
-                    eff = session_effects(p)
+                    eff = observable(p)
                     raised = p.outcome.kind == "raise" and is_ldap_error(ex, p.outcome.exc.cls) and p.outcome.exc.origin == "explicit"
                     # external failures before the gate (argument conversion) are also rejections with no effect
                     raised_ext = p.outcome.kind == "raise" and p.outcome.exc.origin.startswith("external:")
@@ -101,13 +116,13 @@ def check(model: Model, run: Run) -> None:
                     sent_bind = [x for x in exts if msg_short(ext_msg(x)) == "BindRequest" and p.effects.index(x) < p.effects.index(e)]
                     recv_bind = bool(p.msg_in and p.msg_in.endswith(".BindRequest"))
                     if sent_bind:
-                        empty_ok = sent_bind[0].snap_empty.get(OUT) == "empty"
+                        empty_ok = outstanding_before(p, sent_bind[0]) == "empty"
                     elif recv_bind:
                         empty_ok = e.snap_empty.get(OUT) == "empty"
                     else:
                         # state write before the send (the F6 shape): look at a later extend
                         later = [x for x in exts if msg_short(ext_msg(x)) == "BindRequest"]
-                        empty_ok = bool(later) and later[0].snap_empty.get(OUT) == "empty"
+                        empty_ok = bool(later) and outstanding_before(p, later[0]) == "empty"
                         sent_bind = later
                     ok = bool(sent_bind or recv_bind) and empty_ok
                     run.ob("R3-binding-entry", ok, {"entry": f"{ex.short(q)}.{p.entry}", "pre": p.pre_state, "bind": "sent" if sent_bind else "received",
@@ -238,10 +253,10 @@ def check(model: Model, run: Run) -> None:
             if q.endswith("LDAPClient"):
                 for x in exts:
                     if msg_short(ext_msg(x)) == "BindRequest":
-                        ok = x.snap_empty.get(OUT) == "empty"
-                        run.ob("R12-client-bind-needs-no-outstanding", ok, {"entry": f"LDAPClient.{p.entry}", "pre": p.pre_state, "outstanding-at-send": x.snap_empty.get(OUT)})
+                        ok = outstanding_before(p, x) == "empty"
+                        run.ob("R12-client-bind-needs-no-outstanding", ok, {"entry": f"LDAPClient.{p.entry}", "pre": p.pre_state, "outstanding-before-own-id": outstanding_before(p, x)})
                         if not ok:
-                            run.fail(Finding("R12-client-bind-needs-no-outstanding", f"{q}.{p.entry}", f"BindRequest sent with outstanding={x.snap_empty.get(OUT)}",
+                            run.fail(Finding("R12-client-bind-needs-no-outstanding", f"{q}.{p.entry}", f"BindRequest sent with outstanding={outstanding_before(p, x)}",
                                              "a BindRequest can be sent while other operations are (or may be) outstanding", where(ex, x), p.trace()))
     # ---- I0: BEFORE_OPEN implies empty id sets (used as pre-condition of the BEFORE_OPEN runs)
     for q in SESSION_CLASSES:
